@@ -42,6 +42,10 @@ def c15(tier):
             if which == 2 and n == 0:
                 continue
             runs.append(dict(harness="verifHarness_C15", args=[n, which], reach=["C15/ok"]))
+    # every Unicode code point (one symbolic rune), alone and between ASCII letters
+    for which in (0, 2) if tier == "quick" else (0, 1, 2):
+        for pad in (0,) if tier == "quick" else (0, 1):
+            runs.append(dict(harness="verifHarness_C15_rune", args=[which, pad], reach=["C15/ok"]))
     return runs
 
 
@@ -66,6 +70,41 @@ def cutpanics(f):
     return g
 
 
+def s1_parser(harness, done, tier, qn=2, tn=3, sig_extra=True):
+    """S1 runs for a parser-level harness(n, mode, entry)."""
+    runs = []
+    top = qn if tier == "quick" else tn
+    for e in range(E):
+        for n in range(0, top + 1):
+            runs.append(dict(harness=harness, args=[n, 0, e]))
+    if sig_extra:
+        # deeper over the 24-symbol alphabet for the expression and type entry points
+        for e in (3, 4):
+            runs.append(dict(harness=harness, args=[top + 1, 1, e]))
+    return runs
+
+
+def c01(tier):
+    runs = s1_parser("verifHarness_C01", "C01/rejected", tier)
+    k = 2 if tier == "quick" else 3
+    for form in range(8):
+        for n in range(0, k + 1):
+            runs.append(dict(harness="verifHarness_C01_lit", args=[n, form]))
+    return runs
+
+
+def c04(tier):
+    return s1_parser("verifHarness_C04", "C04/done", tier)
+
+
+def c05(tier):
+    return s1_parser("verifHarness_C05", "C05/done", tier)
+
+
+def c09(tier):
+    return s1_parser("verifHarness_C09", "C09/error", tier)
+
+
 PROPS = {
     "C13": dict(level="model_checking", runs=cutpanics(c13),
                 bounds={"quick": "all byte strings (256 values per byte) of length <= 3 from the initial lexer state and length <= 2 after 'a.' (dot-identifier mode); all strings of length 4 over the 24-symbol alphabet",
@@ -78,6 +117,22 @@ PROPS = {
     "C15": dict(level="model_checking", runs=cutpanics(c15),
                 bounds={"quick": "all byte strings of length <= 2 for the three quoting functions", "thorough": "all byte strings of length <= 3"},
                 outside="longer strings (4-byte UTF-8 sequences are outside the quick and thorough bounds)"),
+    "C01": dict(level="model_checking", runs=cutpanics(c01), reach=["C01/accepted", "C01/rejected"],
+                bounds={"quick": "S1: all byte strings of length <= 2 on all nine entry points; length 3 over the 24-symbol alphabet for ParseExpr/ParseType",
+                        "thorough": "S1: all byte strings of length <= 3; length 4 over the 24-symbol alphabet for ParseExpr/ParseType"},
+                outside="longer inputs that are not covered by the vocabulary/family harnesses"),
+    "C04": dict(level="model_checking", runs=c04, reach=["C04/done"],
+                bounds={"quick": "S1: all byte strings of length <= 2 on all nine entry points; length 3 over the 24-symbol alphabet for ParseExpr/ParseType",
+                        "thorough": "S1: all byte strings of length <= 3; length 4 over the 24-symbol alphabet"},
+                outside="longer inputs"),
+    "C05": dict(level="model_checking", runs=cutpanics(c05), reach=["C05/done"],
+                bounds={"quick": "S1: all byte strings of length <= 2 on all nine entry points; length 3 over the 24-symbol alphabet for ParseExpr/ParseType",
+                        "thorough": "S1: all byte strings of length <= 3; length 4 over the 24-symbol alphabet"},
+                outside="longer inputs"),
+    "C09": dict(level="model_checking", runs=cutpanics(c09), reach=["C09/clean", "C09/error"],
+                bounds={"quick": "S1: all byte strings of length <= 2 on all nine entry points; length 3 over the 24-symbol alphabet for ParseExpr/ParseType",
+                        "thorough": "S1: all byte strings of length <= 3; length 4 over the 24-symbol alphabet"},
+                outside="longer inputs"),
     "C20": dict(level="model_checking", runs=cutpanics(c20),
                 bounds={"quick": "all buffers of <= 5 bytes x all pairs 0<=pos<=end<=len; error prefix for all inputs of <= 2 bytes on every Parse* entry",
                         "thorough": "all buffers of <= 7 bytes x all pairs; error prefix for all inputs of <= 3 bytes"},
